@@ -16,4 +16,4 @@ def run(tier):
         "sibling agreement between try_sign and try_verify of the 4 public protocols: the consumer cuts the message at len - (signature length of the specification), the length guard rejects only "
         "payloads shorter than a signature, both sides authenticate the same PAE component list (v3: compressed public key first), the producer emits message || signature(PAE); wrappers forward key, footer, assertion",
         ["correctness of RSA-PSS (ring), Ed25519 (ed25519-dalek) and ECDSA P-384 (p384): verify(sign(m)) holds for a valid key pair"],
-        extra, "signature scheme correctness and key-pair validity (cryptographic / run time)")
+        extra, "signature scheme correctness and key-pair validity (cryptographic / run time)", sem_rules={'C02.S0': 4, 'C02.S1': 4, 'C02.S9': 4})
